@@ -194,6 +194,26 @@ pub fn date(args: &[&str]) -> Option<Vec<String>> {
     Some(vec![hex(block.as_bytes()), back.unwrap_or("none".into())])
 }
 
+/// `dparse <text>` → what `Date::parse` (the `Header` implementation behind `Headers::get::<Date>()`) makes of a Date
+/// value: `ok:<seconds since 1970>` or `err`
+pub fn dparse(args: &[&str]) -> Option<Vec<String>> {
+    use lettre::message::header::Header;
+    let text = match String::from_utf8(unhex(args.first()?)?) {
+        Ok(t) => t,
+        Err(_) => return Some(vec!["notutf8".into()]),
+    };
+    Some(vec![match header::Date::parse(&text) {
+        Ok(d) => {
+            let st: SystemTime = d.into();
+            match st.duration_since(UNIX_EPOCH) {
+                Ok(d) => format!("ok:{}", d.as_secs()),
+                Err(_) => "ok:neg".into(),
+            }
+        }
+        Err(_) => "err".into(),
+    }])
+}
+
 /// `typed <kind> <a> <b>` → header block and whether `get` returns an equal value
 pub fn typed(args: &[&str]) -> Option<Vec<String>> {
     let kind = *args.first()?;
